@@ -161,6 +161,8 @@ pub struct ExecOpts {
     pub hook: bool,
     /// cap on live objects per case (0 = default 64)
     pub max_live: usize,
+    /// really free released Gc blocks at once (addresses get reused within the case)
+    pub reuse_addresses: bool,
 }
 
 /// Per-arena bookkeeping that is not part of the graph model.
